@@ -25,7 +25,7 @@ RULE = ("case = (indicator config incl. round_value, stream from all families in
         "class-specific predicate with a non-None reading. distinct: case digest.")
 ASSUMPTIONS = ["STOCH bound checked when its input is a price field (an input outside [low, high] is not a stochastic)",
                "EMA range check only for smoothing <= period+1 (otherwise it is not a convex average)",
-               "rounding slack: identities 3*rho(round_value); recursive averages rho/alpha; rolling SMA (steps+1)*rho"]
+               "rounding slack: identities 3*rho(round_value); recursive averages rho/alpha; window averages rho (one rounding, no drift with history)"]
 
 
 def plan(tier):
@@ -131,8 +131,8 @@ class Checker:
     def p_STOCH(self, ind, x, c, i, s):
         if ind.input_value in PRICE and isinstance(x, dict):
             for k in ("stoch", "k", "d"):
-                # k and d are rolling SMAs kept in helper series at 4 decimals: drift up to (steps+1)*rho(4) is rounding, not a break
-                m = self._in(x.get(k), 0, 100, k, 1e-6 + (0 if k == "stoch" else (i + 2) * rho(4) + s))
+                # k and d are SMAs of a series inside [0,100] (helpers kept at 4 decimals): a few roundings, never a drift
+                m = self._in(x.get(k), 0, 100, k, 1e-6 + (0 if k == "stoch" else 3 * rho(4) + s))
                 if m:
                     return m
 
@@ -240,7 +240,7 @@ def offline(cfg, ind, base_rows, chk, stats):
                 slack = rho(r) / a + 1e-9
             else:
                 w = xs[max(0, i - p + 1):i + 1]
-                slack = (i + 2) * rho(r) + 1e-9 if cls == "SMA" else rho(r) + 1e-9
+                slack = rho(r) + 1e-9
             if not (min(w) - slack <= v <= max(w) + slack):
                 out = ("average-within-input-range", f"{cls} at {i}: {v} outside [{min(w)}, {max(w)}] (+-{slack:.2g})")
                 break
